@@ -430,6 +430,31 @@ func extractGroupBalancer(repo, root string) error {
 		return err
 	}
 	fmt.Fprintf(&sb, "/-- makeSyncGroupRequestV0: the map handed to groupAssignment{Topics: …} is made by the first statement of the body of the loop over the assignments parameter (a fresh map per member) and is defined nowhere else -/\ndef topics32FreshPerMember : Bool := %v\n", freshPerMember(funcNamed(cgf, "ConsumerGroup", "makeSyncGroupRequestV0")))
+	// reader.go extractTopics / consumergroup.go makeAssignments: shapes the glue model relies on
+	rdf, err := parser.ParseFile(fset, filepath.Join(repo, "reader.go"), nil, 0)
+	if err != nil {
+		return err
+	}
+	fmt.Fprintf(&sb, "/-- extractTopics: `for _, m := range members { for _, t := range m.Topics { if _, seen := VISITED[t]; seen { continue }; RESULT = append(RESULT, t); VISITED[t] = … } }; sort.Strings(RESULT); return RESULT` -/\ndef extractTopicsIsFirstSeenThenSorted : Bool := %v\n", extractTopicsShape(funcNamed(rdf, "", "extractTopics")))
+	fmt.Fprintf(&sb, "/-- makeAssignments: the outer loop ranges over the group's OWN configured topics (`cg.config.Topics`) and looks the received assignment up by that topic; the inner loop appends one entry per received partition -/\ndef makeAssignmentsRangesOverOwnTopics : Bool := %v\n", makeAssignmentsShape(funcNamed(cgf, "ConsumerGroup", "makeAssignments")))
+	// conn.go: the functions that turn a Metadata answer into partitions keep the other topics when one is unknown
+	cnf, err := parser.ParseFile(fset, filepath.Join(repo, "conn.go"), nil, 0)
+	if err != nil {
+		return err
+	}
+	var keep []string
+	nReaders := 0
+	for _, d := range cnf.Decls {
+		fd, ok := d.(*ast.FuncDecl)
+		if !ok || fd.Body == nil || fd.Recv == nil || !turnsTopicMetadataIntoPartitions(fd) {
+			continue
+		}
+		nReaders++
+		if unknownTopicContinues(fd) {
+			keep = append(keep, "v")
+		}
+	}
+	fmt.Fprintf(&sb, "/-- conn.go: number of methods of the shape `for _, t := range topicMetadata { if <topic error concerns the connection> { … return nil, err }; for _, p := range t.Partitions { partitions = append(…) } }`, and how many of them start the error branch with `if <…> { err = …; continue }` (an unknown topic among several does not hide the others) -/\ndef topicMetadataReaders : Nat × Nat := (%d, %d)\n", nReaders, len(keep))
 	sb.WriteString("end KV.Gen.GroupBalancer\n")
 	out := filepath.Join(root, "lean", "KafkaVerif", "Gen", "GroupBalancerSel.lean")
 	return os.WriteFile(out, []byte(sb.String()), 0o644)
@@ -770,4 +795,186 @@ func freshPerMember(fd *ast.FuncDecl) bool {
 		return true
 	})
 	return defs == 1 && inLoopFirst
+}
+
+// turnsTopicMetadataIntoPartitions: the method's body is one range loop over a parameter followed by a return; the loop
+// body is an if (whose last statement returns two values) followed by a range loop that appends.
+func turnsTopicMetadataIntoPartitions(fd *ast.FuncDecl) bool {
+	if len(fd.Body.List) != 2 {
+		return false
+	}
+	rs, ok := fd.Body.List[0].(*ast.RangeStmt)
+	if _, isRet := fd.Body.List[1].(*ast.ReturnStmt); !ok || !isRet || len(rs.Body.List) != 2 {
+		return false
+	}
+	isParam := false
+	for _, o := range paramObjs(fd) {
+		if o == objOf(rs.X) && o != nil {
+			isParam = true
+		}
+	}
+	ifs, ok := rs.Body.List[0].(*ast.IfStmt)
+	inner, ok2 := rs.Body.List[1].(*ast.RangeStmt)
+	if !isParam || !ok || !ok2 || len(ifs.Body.List) == 0 {
+		return false
+	}
+	ret, ok := ifs.Body.List[len(ifs.Body.List)-1].(*ast.ReturnStmt)
+	if !ok || len(ret.Results) != 2 {
+		return false
+	}
+	if sel, ok := inner.X.(*ast.SelectorExpr); !ok || objOf(sel.X) != objOf(rs.Value) || objOf(rs.Value) == nil {
+		return false
+	}
+	appends := false
+	ast.Inspect(inner.Body, func(n ast.Node) bool {
+		if c, ok := n.(*ast.CallExpr); ok && calls(c, "append") {
+			appends = true
+		}
+		return true
+	})
+	return appends
+}
+
+// unknownTopicContinues: the error branch starts with `if … { <named result> = …; continue }`.
+func unknownTopicContinues(fd *ast.FuncDecl) bool {
+	rs := fd.Body.List[0].(*ast.RangeStmt)
+	ifs := rs.Body.List[0].(*ast.IfStmt)
+	if len(ifs.Body.List) < 2 {
+		return false
+	}
+	in, ok := ifs.Body.List[0].(*ast.IfStmt)
+	if !ok || in.Else != nil || len(in.Body.List) != 2 {
+		return false
+	}
+	as, ok1 := in.Body.List[0].(*ast.AssignStmt)
+	br, ok2 := in.Body.List[1].(*ast.BranchStmt)
+	if !ok1 || !ok2 || br.Tok != token.CONTINUE || as.Tok != token.ASSIGN || len(as.Lhs) != 1 {
+		return false
+	}
+	// the assigned variable is a named result of the function
+	if fd.Type.Results == nil {
+		return false
+	}
+	for _, f := range fd.Type.Results.List {
+		for _, n := range f.Names {
+			if n.Obj != nil && n.Obj == objOf(as.Lhs[0]) {
+				return true
+			}
+		}
+	}
+	return false
+}
+
+func extractTopicsShape(fd *ast.FuncDecl) bool {
+	if fd == nil {
+		return false
+	}
+	ps := paramObjs(fd)
+	outer := directRanges(fd.Body)
+	if len(ps) != 1 || len(outer) != 1 || objOf(outer[0].X) != ps[0] {
+		return false
+	}
+	inner := directRanges(outer[0].Body)
+	if len(inner) != 1 || len(inner[0].Body.List) != 3 {
+		return false
+	}
+	sel, ok := inner[0].X.(*ast.SelectorExpr)
+	if !ok || sel.Sel.Name != "Topics" || objOf(sel.X) != objOf(outer[0].Value) {
+		return false
+	}
+	topic := objOf(inner[0].Value)
+	// 1: if _, seen := visited[topic]; seen { continue }
+	ifs, ok := inner[0].Body.List[0].(*ast.IfStmt)
+	if !ok || ifs.Init == nil || ifs.Else != nil || len(ifs.Body.List) != 1 {
+		return false
+	}
+	br, ok := ifs.Body.List[0].(*ast.BranchStmt)
+	init, ok2 := ifs.Init.(*ast.AssignStmt)
+	if !ok || !ok2 || br.Tok != token.CONTINUE || len(init.Lhs) != 2 || len(init.Rhs) != 1 || objOf(ifs.Cond) == nil || objOf(ifs.Cond) != objOf(init.Lhs[1]) {
+		return false
+	}
+	ix, ok := init.Rhs[0].(*ast.IndexExpr)
+	if !ok || objOf(ix.Index) != topic || topic == nil {
+		return false
+	}
+	visited := objOf(ix.X)
+	// 2: result = append(result, topic)
+	as, ok := inner[0].Body.List[1].(*ast.AssignStmt)
+	if !ok || len(as.Lhs) != 1 || len(as.Rhs) != 1 || !calls(as.Rhs[0], "append") {
+		return false
+	}
+	call := as.Rhs[0].(*ast.CallExpr)
+	result := objOf(as.Lhs[0])
+	if result == nil || len(call.Args) != 2 || objOf(call.Args[0]) != result || objOf(call.Args[1]) != topic {
+		return false
+	}
+	// 3: visited[topic] = …
+	as3, ok := inner[0].Body.List[2].(*ast.AssignStmt)
+	if !ok || len(as3.Lhs) != 1 {
+		return false
+	}
+	ix3, ok := as3.Lhs[0].(*ast.IndexExpr)
+	if !ok || objOf(ix3.X) != visited || visited == nil || objOf(ix3.Index) != topic {
+		return false
+	}
+	// afterwards: sort.Strings(result) and return result
+	sorted, returned := false, false
+	for _, st := range fd.Body.List {
+		switch x := st.(type) {
+		case *ast.ExprStmt:
+			if c, ok := x.X.(*ast.CallExpr); ok {
+				if se, ok := c.Fun.(*ast.SelectorExpr); ok && se.Sel.Name == "Strings" && len(c.Args) == 1 && objOf(c.Args[0]) == result {
+					sorted = true
+				}
+			}
+		case *ast.ReturnStmt:
+			if len(x.Results) == 1 && objOf(x.Results[0]) == result {
+				returned = true
+			}
+		}
+	}
+	return sorted && returned
+}
+
+func makeAssignmentsShape(fd *ast.FuncDecl) bool {
+	if fd == nil || fd.Recv == nil || len(fd.Recv.List) != 1 || len(fd.Recv.List[0].Names) != 1 {
+		return false
+	}
+	recv := fd.Recv.List[0].Names[0].Obj
+	ps := paramObjs(fd)
+	outer := directRanges(fd.Body)
+	if len(ps) != 2 || len(outer) != 1 {
+		return false
+	}
+	// range over <recv>.config.Topics
+	s1, ok := outer[0].X.(*ast.SelectorExpr)
+	if !ok || s1.Sel.Name != "Topics" {
+		return false
+	}
+	s2, ok := s1.X.(*ast.SelectorExpr)
+	if !ok || objOf(s2.X) != recv || recv == nil {
+		return false
+	}
+	topic := objOf(outer[0].Value)
+	// some statement defines X := <first parameter>[topic], and the only inner loop ranges over X and appends
+	var looked *ast.Object
+	for _, st := range outer[0].Body.List {
+		if a, ok := st.(*ast.AssignStmt); ok && a.Tok == token.DEFINE && len(a.Lhs) == 1 && len(a.Rhs) == 1 {
+			if ix, ok := a.Rhs[0].(*ast.IndexExpr); ok && objOf(ix.X) == ps[0] && objOf(ix.Index) == topic && topic != nil {
+				looked = objOf(a.Lhs[0])
+			}
+		}
+	}
+	inner := directRanges(outer[0].Body)
+	if looked == nil || len(inner) != 1 || objOf(inner[0].X) != looked {
+		return false
+	}
+	appends := false
+	ast.Inspect(inner[0].Body, func(n ast.Node) bool {
+		if c, ok := n.(*ast.CallExpr); ok && calls(c, "append") {
+			appends = true
+		}
+		return true
+	})
+	return appends && !hasEarlyExit(outer[0].Body)
 }
